@@ -4,8 +4,8 @@ SPEC = dict(
     uses_hashes=True,
     rule="shuffle.FisherYatesShuffle / numericSequenceFromHash / Shuffle, extrinsic.rotateCores / permute / NewGuranatorAssignments "
          "against the extracted Gray Paper definitions (F.1, F.2, F.3, 11.19, 11.20): Shuffle on every length 0..1100 with random "
-         "entropy (identity input for every length, inputs with duplicates / arbitrary 32-bit values on every third length, every length "
-         "in thorough); F.1 with explicit number sequences (boundary-biased 32-bit draws, |r| >= |s|); Q_l for every l <= 80 and a few "
+         "entropy (identity input for every length, inputs with duplicates / arbitrary 32-bit values on every length <= 64 and every fourth length above, "
+         "every length in thorough); F.1 with explicit number sequences (boundary-biased 32-bit draws, |r| >= |s|); Q_l for every l <= 80 and a few "
          "long ones; permute and NewGuranatorAssignments on every slot of several epochs (first epochs, epoch 1000, the epochs holding "
          "slot 2^32-1) for the tiny and the full parameter set, single random slots, and 1500 other (V,C,E,R) sets; "
          "non-trivial = non-empty result; distinct by input",
